@@ -61,19 +61,20 @@ mut("m17-ttml-single-big-read", "C17", "a TTML document delivered in more than o
     ("ttml.go", """	if err = xml.NewDecoder(i).Decode(&ttml); err != nil {""", """	var raw = make([]byte, 1<<20)
 	var nRaw, _ = i.Read(raw)
 	if err = xml.Unmarshal(raw[:nRaw], &ttml); err != nil {"""), also=["C18"])
-mut("m17-webvtt-header-sniffed-with-one-read", "C17", "a first read shorter than the WEBVTT header line",
+mut("m17-webvtt-bom-skipped-with-one-raw-read", "C17", "a split inside the 3-byte BOM of a WebVTT document",
     ("webvtt.go", """	o = NewSubtitles()
 	var scanner = newScanner(i)
 """, """	o = NewSubtitles()
-	// Fast path: make sure this looks like a WebVTT file before scanning it
-	var head = make([]byte, 9)
-	var nh, _ = i.Read(head)
-	if !bytes.Contains(head[:nh], []byte("WEBVTT")) {
-		return
+	// Skip the BOM header
+	var bom = make([]byte, len(BytesBOM))
+	var nb, _ = i.Read(bom)
+	if !bytes.Equal(bom[:nb], BytesBOM) {
+		i = io.MultiReader(bytes.NewReader(bom[:nb]), i)
 	}
-	i = io.MultiReader(bytes.NewReader(head[:nh]), i)
 	var scanner = newScanner(i)
 """),
+    ("webvtt.go", """		line = strings.TrimPrefix(line, string(BytesBOM))
+""", ""),
     ("webvtt.go", 'import (\n\t"errors"', 'import (\n\t"bytes"\n\t"errors"'))
 
 # ------------------------------------------------------------------ C18
